@@ -24,6 +24,7 @@ type Val struct {
 	Iter *iterVal
 	G    *ghostRef
 	GSt  *State
+	KeySort string // store-key value built in a contract (pair/triple): its SMT sort
 	Log  bool // derived from the call log: memory it refers to is read in the post-state
 }
 
@@ -167,6 +168,12 @@ func (e *Engine) initHeap(name, sort string) string {
 	e.heapSorts[name] = sort
 	if strings.HasPrefix(name, "callarg_") {
 		// never read before the call that sets it
+	}
+	if strings.HasPrefix(name, "callsum_") {
+		e.vc.insertGlobal(1, "(assert (= "+c+" 0))")
+		for _, o := range e.vc.obls {
+			o.prefix++
+		}
 	}
 	if strings.HasPrefix(name, "called_") || name == "lock_held" {
 		// ghost flags start false
